@@ -41,6 +41,8 @@ def check(model: Model, rep: Report, tier: str):
     with rep.isolated():
         x3(model, rep)
     with rep.isolated():
+        x9(model, rep)
+    with rep.isolated():
         x4(model, rep)
     with rep.isolated():
         x5(model, rep)
@@ -334,20 +336,31 @@ def x3(model: Model, rep: Report):
                 "get_state_1_measurement_index", "get_heralded_state_2_measurement_index", "get_state_2_measurement_index"]
     order_h0 = ["get_state_0_measurement_index", "get_state_1_measurement_index", "get_state_2_measurement_index"]
     n = 0
+    # further bool switches of the kernel (dataclass fields with a constant bool default, other than heralded_initialization): the layout is decided for their
+    # defaults; for every other setting the kernel still has to contain all its categories (below)
+    switches = {nm: fld.default.value for nm, fld in C.all_fields().items() if nm != "heralded_initialization" and isinstance(fld.default, ast.Constant)
+                and isinstance(fld.default.value, bool)}
     for h in (True, False):
         for kind in ("involved", "foreign"):
             kc = KernelCase(model, C, h, None, "data" if kind == "involved" else "foreign", None, None, "involved_qubit_ids")
+            for nm, dv in switches.items():
+                kc.mp[("attr", kc.s, nm)] = const(dv)
             S = kc.S
             order = order_h1 if h else order_h0
             if kind == "involved":
                 stop = kc.value("stop_index")
                 want = t_add(S, lin({}, Fraction(5 if h else 2)))
+                if number(t_add(stop, S, -1)) is None:
+                    # the stop is not `start + a number` (it depends on fields this rule does not fix, e.g. an inherited repetitions / f_state): not read, not wrong
+                    raise AnalysisError(f"QutritCalibrationIndexKernel.stop_index[h={int(h)}]: {show(stop)[:140]} is not the start plus a number; not read")
                 rep.check(stop == want, "C12.X3", f"QutritCalibrationIndexKernel.stop_index[h={int(h)}]", C.resolve("stop_index").loc, found=show(stop), required=show(want),
                           what="calibration kernel length is not 3h + 3", detail=f"stop:{int(h)}")
             for g in order_h1:
                 f = C.resolve(g)
                 v = kc.value(g)
                 iv = norm_interval(interval(v))
+                if iv is None and (v[0] == "slice" or any(x[0] == "slice" for x in subterms(v, lambda x_: x_[0] == "slice"))):
+                    raise AnalysisError(f"QutritCalibrationIndexKernel.{g}[h={int(h)}, {kind} qubit]: the answer is a strided slice of an index range ({show(v)[:120]}); not read by this rule")
                 if kind == "foreign" or g not in order:
                     want_iv = (ZERO, ZERO)
                 else:
@@ -357,6 +370,116 @@ def x3(model: Model, rep: Report):
                 rep.check(iv == want_iv, "C12.X3", f"QutritCalibrationIndexKernel.{g}[h={int(h)}, {kind} qubit]", f.loc, found=show_iv(iv) if iv is not None else show(v), required=show_iv(want_iv),
                           what="calibration indices are not consecutive in the order heralded/state 0, 1, 2 (overlap with another slot or outside the kernel)", detail=f"{g}:{int(h)}:{kind}")
     rep.analysed["C12.X3 cases"] = n
+    for setting in itertools.product(*[[(nm, True), (nm, False)] for nm in sorted(switches)]):
+        if not switches or all(switches[nm] == v for nm, v in setting):
+            continue
+        tag = ", ".join(f"{nm}={v}" for nm, v in setting)
+        for h in (True, False):
+            kc = KernelCase(model, C, h, None, "data", None, None, "involved_qubit_ids")
+            for nm, v in setting:
+                kc.mp[("attr", kc.s, nm)] = const(v)
+            length = number(t_add(t_add(kc.value("stop_index"), ONE), kc.S, -1))
+            if length is None:
+                raise AnalysisError(f"QutritCalibrationIndexKernel.stop_index[h={int(h)}, {tag}] is not the start plus a number; not read")
+            for g in order_h1:
+                f = C.resolve(g)
+                v = kc.value(g)
+                iv = norm_interval(interval(v))
+                if iv is None:
+                    raise AnalysisError(f"QutritCalibrationIndexKernel.{g}[h={int(h)}, {tag}]: {show(v)[:120]} is not an index interval; not read")
+                if iv == (ZERO, ZERO):
+                    continue
+                lo, hi = number(t_add(iv[0], kc.S, -1)), number(t_add(iv[1], kc.S, -1))
+                if lo is None or hi is None:
+                    raise AnalysisError(f"QutritCalibrationIndexKernel.{g}[h={int(h)}, {tag}]: {show_iv(iv)} is not relative to the start; not read")
+                rep.check(0 <= lo and hi <= length, "C12.X3", f"QutritCalibrationIndexKernel.{g}[h={int(h)}, {tag}]", f.loc, found=f"{show_iv(iv)} with stop = {show(kc.value('stop_index'))}",
+                          required="inside [start, stop]", what=f"with {tag} the kernel ends at its stop index but this category still reports an index beyond it: the index lies outside its "
+                          "kernel (inside the next experiment repetition)", detail=f"inside:{g}:{int(h)}:{tag}")
+
+
+def x9(model: Model, rep: Report):
+    rep.rule("C12.X9", "GeneralCalibrationIndexKernel, all four settings (heralded h, f-state f): every contained state (2 + f of them) takes 1 + h acquisitions per repetition, so "
+                       "cycle_length = (1 + h)(2 + f) and stop = S + cycle_length * repetitions - 1; each category (heralded / calibration, per contained state) is the strided slice "
+                       "all_indices[o::cycle_length] with offsets o pairwise distinct and below cycle_length (inside the kernel, disjoint, and together every slot of the cycle); "
+                       "states that are not contained and heralded categories without heralded initialisation are empty")
+    C = model.maybe_cls("GeneralCalibrationIndexKernel")
+    if C is None:
+        raise AnalysisError("GeneralCalibrationIndexKernel not found")
+    getters = ["get_heralded_state_measurement_index", "get_calibration_state_measurement_index"]
+    n_cases = 0
+    for h in (True, False):
+        for fs in (True, False):
+            ev = Evaluator(model, opaque={f"{C.name}.start_index"})
+            s = sym("self")
+            ev.set_type(s, C)
+            S, R = ("attr", s, "start_index"), ("attr", s, "repetitions")
+            mp = {("attr", s, "heralded_initialization"): const(h), ("attr", s, "f_state"): const(fs)}
+
+            def prop(name):
+                f = C.resolve(name)
+                if f is None:
+                    raise AnalysisError(f"{C.name}.{name} not found")
+                v = ev.attr(s, name, Frame(f, f.module, {}, C, 0)) if f.kind == "property" else ev.value_of(f, args={}, self_term=s, self_cls=C)
+                return f, subst(subst(v, mp), {})
+            tag = f"h={int(h)}, f={int(fs)}"
+            want_n = (1 + int(h)) * (2 + int(fs))
+            cf, cyc = prop("cycle_length")
+            ncyc = number(cyc)
+            if ncyc is None:
+                raise AnalysisError(f"GeneralCalibrationIndexKernel.cycle_length[{tag}]: {show(cyc)[:120]} does not reduce to a number; not read")
+            rep.check(ncyc is not None and ncyc == want_n, "C12.X9", f"GeneralCalibrationIndexKernel.cycle_length[{tag}]", cf.loc, found=show(cyc), required=str(want_n),
+                      what="the cycle length is not (1 + heralded) acquisitions for each contained state: the kernel ends early / late, the kernel chained behind it overlaps "
+                           "it or leaves a gap, and the last categories fall outside the cycle", detail=f"cycle:{int(h)}:{int(fs)}")
+            sf, stop = prop("stop_index")
+            want_stop = t_add(t_add(S, t_mul(lin({}, Fraction(want_n)), R)), ONE, -1)
+            rep.check(stop == want_stop, "C12.X9", f"GeneralCalibrationIndexKernel.stop_index[{tag}]", sf.loc, found=show(stop), required=show(want_stop),
+                      what="the kernel does not span cycle_length * repetitions indices from its start", detail=f"stop:{int(h)}:{int(fs)}")
+            stf, states = prop("contained_states")
+            want_states = [("enum", "StateKey", f"STATE_{k}") for k in range(2 + int(fs))]
+            rep.check(states[0] == "list" and list(states[1]) == want_states, "C12.X9", f"GeneralCalibrationIndexKernel.contained_states[{tag}]", stf.loc,
+                      found=show(states), required="[" + ", ".join(show(x) for x in want_states) + "]", what="contained states are not |0>, |1> (and |2> with the f-state)",
+                      detail=f"states:{int(h)}:{int(fs)}")
+            keys = list(ev.enum_members("StateKey") or [])
+            if not keys:
+                raise AnalysisError("StateKey members not read")
+            offsets: Dict[Tuple[str, str], int] = {}
+            all_want = ("call", "list", (("call", "range", (S, t_add(want_stop, ONE)), ()),), ())
+            for g in getters:
+                f = C.resolve(g)
+                if f is None:
+                    raise AnalysisError(f"{C.name}.{g} not found")
+                ps = [p_ for p_ in f.param_names if p_ != f.self_name]
+                if len(ps) != 1:
+                    raise AnalysisError(f"{C.name}.{g}: expected one state parameter")
+                for kname in keys:
+                    st = ("enum", "StateKey", kname)
+                    v = subst(subst(ev.value_of(f, args={ps[0]: st}, self_term=s, self_cls=C), mp), {})
+                    contained = st in want_states and (h or g != "get_heralded_state_measurement_index")
+                    n_cases += 1
+                    where = f"GeneralCalibrationIndexKernel.{g}[{tag}, {kname}]"
+                    if not contained:
+                        rep.check(v == ("list", ()), "C12.X9", where, f.loc, found=show(v), required="[]", what="a category that does not exist in this setting is not empty: "
+                                  "its indices belong to another category or lie outside the kernel", detail=f"{g}:{int(h)}:{int(fs)}:{kname}")
+                        continue
+                    if v[0] not in ("slice", "list"):
+                        raise AnalysisError(f"{where}: answer {show(v)[:120]} is not a strided slice of the kernel's index range; not read")
+                    off = number(v[2]) if v[0] == "slice" and len(v) == 5 else None
+                    ok = off is not None and v[1] == all_want and v[3] == NONE and number(v[4]) == want_n and off.denominator == 1 and 0 <= off < want_n
+                    rep.check(ok, "C12.X9", where, f.loc, found=show(v), required=f"list(range(start, stop + 1))[o::{want_n}] with 0 <= o < {want_n}",
+                              what="the category is not one slot of every cycle inside the kernel: it is empty for a contained state, reaches into the next repetition or "
+                                   "leaves the kernel", detail=f"{g}:{int(h)}:{int(fs)}:{kname}")
+                    if ok:
+                        offsets[(g, kname)] = int(off)
+            by_off: Dict[int, List[str]] = {}
+            for (g, kname), o in offsets.items():
+                by_off.setdefault(o, []).append(f"{g}({kname})")
+            clash = {o: xs for o, xs in by_off.items() if len(xs) > 1}
+            rep.check(not clash, "C12.X9", f"GeneralCalibrationIndexKernel[categories disjoint, {tag}]", C.loc,
+                      found="; ".join(f"slot {o}: {', '.join(xs)}" for o, xs in sorted(clash.items())) or f"{len(offsets)} categories on distinct slots",
+                      required="every category on its own slot of the cycle", what="two categories of the calibration kernel share acquisition indices",
+                      detail=f"disjoint:{int(h)}:{int(fs)}")
+    rep.analysed["C12.X9 getter cases"] = n_cases
+    rep.floor("GeneralCalibrationIndexKernel getter cases", n_cases, 24)
 
 
 # ---------------------------------------------------------------------------------------------
